@@ -323,6 +323,9 @@ func init() {
 			lc := flagx.RunLdCols(def, core.Pkgs("./lapack/gonum", "./blas/gonum"))
 			lc.Floor("matrix_length_checks", 200)
 			res.Merge(lc)
+			wq := flagx.RunWorkQuery(def, core.Pkgs("./lapack/gonum"))
+			wq.Floor("work_length_checks_in_query_routines", 20)
+			res.Merge(wq)
 			cl := flagx.RunCondLen(def, core.Pkgs("./lapack/gonum", "./blas/gonum"))
 			cl.Floor("operands_with_conditional_length_checks_only", 30)
 			cl.Floor("uses_under_a_branch_on_the_guard_flags", 120)
@@ -874,6 +877,8 @@ func dump(argv []string) {
 		res = globalx.RunDecls(def, core.Pkgs(argv[1:]...), nil)
 	case "nilguard":
 		res = decode.RunNilGuard(def, core.Pkgs(argv[1:]...))
+	case "workquery":
+		res = flagx.RunWorkQuery(def, core.Pkgs(argv[1:]...))
 	case "betascale":
 		res = flagx.RunBetaScale(def, core.Pkgs(argv[1:]...))
 	case "guardop":
